@@ -528,6 +528,14 @@ def gen_violating(rng, name, content, force_op=None):
             else:
                 lines[j:j] = [f"{rng.choice(['done', 'out'])}:"]                                       # a label on its own line before the body
         return "\n".join(lines), op
+    if op == "type_end_declarator":
+        # the closing brace of a struct/union/enum body followed by a declarator that does not start with an identifier
+        # (a pointer, a function pointer, an array of pointers), or by an attribute: the type scope ends there all the same
+        cand = [j for j, ln in enumerate(lines) if j > 11 and (ln == "};" or (ln.startswith("}\t") and ln.endswith(";") and "(" not in ln))]
+        if cand:
+            j = cand[rng.randrange(len(cand))]
+            lines[j] = rng.choice(["}\t*g_head;", "}\t**g_tab;", "}\t(*g_fp)(void);", "}\t*g_arr[3];", "}\t*g_a, *g_b;"])
+        return "\n".join(lines), op
     if op == "nest_body":
         # the single statement of a brace-less control statement becomes itself a brace-less loop: with an empty body, or
         # with the old statement as its body (forced only; never drawn, so the viol pools stay what they were)
